@@ -23,5 +23,11 @@ TEXTS = {
         level_text="Generated-history search with a reference model: thousands of generated trees x update sequences, every node compared with the fold after each step; concurrent batches compared at quiescence (and under -race in the thorough tier); the finite state/status algebra is enumerated completely. Exploration level: tree shapes and histories are unbounded, interleavings of concurrent updates are sampled.",
         level_note="Trusts overlay hook H2 to build the tree like workflow.Load does before template processing; leaf values restricted to those the task manager sends.",
     ),
+    "C16": dict(
+        engine="inprocess-exhaustive",
+        technique="exhaustive fault enumeration (depth-first over every outcome of every device step actually issued) through the real RpcClient/transitioner over loopback gRPC against a simulated OCC device; oracle = image of the simulated device's real state, success-implies-destination, rollback-to-source",
+        level_text="Fault enumeration, complete for the stated space: every (mode, event, valid source, real device state incl. wrong sources) root and every assignment of the 6 step outcomes to the steps the transitioner issues is executed against the real client code (doTransition acceptance rule included) and compared with the simulated device's true state. The space is finite and small, so it is enumerated rather than sampled.",
+        level_note="Trusts the device simulation (written from occ/plugin/OccFMQCommon.cxx and the FairMQ state table); 'unknown' reports are accepted only in the three situations listed in the assumptions.",
+    ),
 }
 NA_REASONS = {}
